@@ -5,6 +5,7 @@ import (
 	"go/ast"
 	"go/token"
 	"go/types"
+	"sort"
 	"strings"
 )
 
@@ -814,5 +815,195 @@ func ruleBroadcastShape(r *Run) {
 				r.CheckT("J6", fn.Name+":resolve", (hit == "hit") == app && hit != "", ev.Pos, path, "an id resolves to a recipient exactly when it names a member of this session (lookup %q, appended %v)", hit, app)
 			}
 		}
+	}
+}
+
+// ruleRelaySync (C6): what is handed to a connection's responder is queued exactly once, in order,
+// with a blocking FIFO send; nothing is dropped, duplicated or re-ordered between a handler and the socket.
+func ruleRelaySync(r *Run) {
+	if r.broken() {
+		return
+	}
+	fromProto := r.P.LookupFunc(pkgHCWS, "", "MsgFromProto")
+	sendChan := r.P.LookupField(pkgWS, "handler", "sendChan")
+	if fromProto == nil || sendChan == nil {
+		r.Undecide("C6", "anchors MsgFromProto / handler.sendChan not found")
+		return
+	}
+	isSendChan := func(fn *Func, x ast.Expr) bool {
+		se, ok := ast.Unparen(x).(*ast.SelectorExpr)
+		if !ok {
+			return false
+		}
+		sel, ok := fn.Info().Selections[se]
+		return ok && sel.Obj() == sendChan
+	}
+	// every operation on the send queue, repo-wide
+	type chanUse struct {
+		fn   *Func
+		send bool
+		ev   Event
+		path *Path
+	}
+	var uses []chanUse
+	funcs := append([]*Func{}, r.P.All...)
+	for _, lf := range r.P.Lits {
+		if isRepoPkg(lf.Pkg.Types) {
+			funcs = append(funcs, lf)
+		}
+	}
+	sort.Slice(funcs, func(i, j int) bool { return funcs[i].Name < funcs[j].Name })
+	seenPos := map[token.Pos]bool{}
+	for _, fn := range funcs {
+		mentions := false
+		ast.Inspect(fn.Body, func(n ast.Node) bool {
+			if se, ok := n.(*ast.SelectorExpr); ok {
+				if sel, ok := fn.Info().Selections[se]; ok && sel.Obj() == sendChan {
+					mentions = true
+				}
+			}
+			return !mentions
+		})
+		if !mentions {
+			continue
+		}
+		paths := r.Paths(fn)
+		for pi := range paths {
+			path := &paths[pi]
+			for _, ev := range path.Events {
+				if ev.Kind == EvChanOp && isSendChan(ev.Fn, ev.Chan) && !seenPos[ev.Pos] {
+					seenPos[ev.Pos] = true
+					uses = append(uses, chanUse{fn, ev.Send, ev, path})
+				}
+			}
+		}
+	}
+	nSend, nRecv := 0, 0
+	for _, u := range uses {
+		if u.send {
+			nSend++
+			r.CheckT("C6", u.fn.root().Name+":send-blocking", !u.ev.NonBlocking, u.ev.Pos, u.path,
+				"a message is put on the connection's send queue with a select/default: when the queue is full the message is silently dropped for that recipient")
+			okFn := u.fn.root().Name == "websocket.(*handler).send" || u.fn.root().Name == "websocket.(*handler).sendMsg"
+			r.CheckT("C6", u.fn.root().Name+":sender-funcs", okFn, u.ev.Pos, u.path, "the send queue is fed only by the handler's send/sendMsg")
+		} else {
+			nRecv++
+			okFn := u.fn.root().Name == "websocket.(*handler).startSending"
+			r.CheckT("C6", u.fn.root().Name+":single-consumer", okFn, u.ev.Pos, u.path, "the send queue is drained only by the connection's sending loop (and its shutdown drain)")
+		}
+	}
+	r.Floor("C6", "sends into the send queue", nSend, 2)
+	r.Floor("C6", "receives from the send queue", nRecv, 2)
+	// sendMsg: exactly one blocking send of the message handed in; send: encode, then the same
+	for _, q := range []struct {
+		name   string
+		encode bool
+	}{{"websocket.(*handler).sendMsg", false}, {"websocket.(*handler).send", true}} {
+		fn := r.modelFunc(q.name)
+		if fn == nil {
+			continue
+		}
+		paths := r.Paths(fn)
+		r.Analysed(fn, len(paths))
+		delivered := 0
+		for pi := range paths {
+			path := &paths[pi]
+			sends := 0
+			valOK := false
+			encErr := ""
+			for i, ev := range path.Events {
+				if ev.Kind == EvGo {
+					r.CheckT("C6", fn.Name+":no-goroutine", false, ev.Pos, path, "queuing a message spawns a goroutine: relays of one connection may overtake each other")
+				}
+				if ev.Kind == EvGuard {
+					g := r.Classify(path, i)
+					if g.Callee == fromProto {
+						encErr = g.Outcome
+					}
+				}
+				if ev.Kind == EvChanOp && ev.Send && isSendChan(ev.Fn, ev.Chan) {
+					sends++
+					if ss, ok := ev.Node.(*ast.SendStmt); ok {
+						c := r.P.Canon(fn, ss.Value)
+						if q.encode {
+							valOK = c == "call:websocket.MsgFromProto(param:protoMsg)#0"
+						} else {
+							valOK = c == "param:msg"
+						}
+					}
+				}
+			}
+			if q.encode && encErr == "err" {
+				r.CheckT("C6", fn.Name+":encode-failure", sends == 0, fn.Body.Pos(), path, "a message that cannot be encoded is not queued")
+				continue
+			}
+			delivered++
+			r.CheckT("C6", fn.Name+":queued-once", sends == 1 && valOK, fn.Body.Pos(), path, "the message handed in is queued exactly once (%d sends)", sends)
+		}
+		r.Check("C6", fn.Name+":delivers", delivered >= 1, fn.Body.Pos(), "%s has a delivering path", q.name)
+	}
+	// responseSender forwards to the two functions exactly once
+	for _, q := range []struct{ name, field string }{{"websocket.responseSender.Send", "send"}, {"websocket.responseSender.SendMsg", "sendMsg"}} {
+		fn := r.modelFunc(q.name)
+		if fn == nil {
+			continue
+		}
+		fld := r.P.LookupField(pkgWS, "responseSender", q.field)
+		for _, path := range r.Paths(fn) {
+			calls := 0
+			argOK := false
+			for _, ev := range path.Events {
+				if ev.Kind == EvCall && ev.Callee == fld {
+					calls++
+					argOK = len(ev.Call.Args) == 1 && strings.HasPrefix(r.P.Canon(fn, ev.Call.Args[0]), "param:")
+				}
+			}
+			r.CheckT("C6", fn.Name+":forwards", calls == 1 && argOK, fn.Body.Pos(), &path, "the responder forwards each message exactly once")
+		}
+		r.Analysed(fn, 1)
+	}
+	// the responder handed to handlers is built from the handler's own send/sendMsg
+	if h := r.modelFunc("websocket.(*handler).Handle"); h != nil {
+		found := false
+		ast.Inspect(h.Body, func(n ast.Node) bool {
+			cl, ok := n.(*ast.CompositeLit)
+			if !ok {
+				return true
+			}
+			if _, tn := litTypeName(h.Info(), cl); tn != "responseSender" {
+				return true
+			}
+			s1, s2 := litField(cl, "send"), litField(cl, "sendMsg")
+			found = s1 != nil && s2 != nil && r.P.Canon(h, s1) == "recv.method:send" && r.P.Canon(h, s2) == "recv.method:sendMsg"
+			return true
+		})
+		r.Check("C6", h.Name+":responder", found, h.Body.Pos(), "the responder given to handlers and stored in participants queues into this connection's own send queue")
+	}
+	// sending loop: each queued message is written once, in queue order
+	if sl := r.modelFunc("websocket.(*handler).startSending"); sl != nil {
+		paths := r.Paths(sl)
+		r.Analysed(sl, len(paths))
+		senderFld := r.P.LookupField(pkgWS, "handler", "sender")
+		n := 0
+		for pi := range paths {
+			path := &paths[pi]
+			for i, ev := range path.Events {
+				if ev.Kind == EvChanOp && !ev.Send && isSendChan(ev.Fn, ev.Chan) && ev.Depth == 0 {
+					writes := 0
+					for j := i + 1; j < len(path.Events); j++ {
+						pe := path.Events[j]
+						if pe.Kind == EvCall && pe.Callee == senderFld {
+							writes++
+						}
+						if pe.Kind == EvGo {
+							r.CheckT("C6", sl.Name+":no-goroutine", false, pe.Pos, path, "the sending loop writes messages from a spawned goroutine: order on the wire is no longer queue order")
+						}
+					}
+					n++
+					r.CheckT("C6", sl.Name+":write-once", writes == 1, ev.Pos, path, "each message taken from the queue is written to the socket exactly once (%d)", writes)
+				}
+			}
+		}
+		r.Floor("C6", "dequeue-and-write iterations", n, 1)
 	}
 }
